@@ -119,10 +119,16 @@ func runConfig(standin, work, cfg string, rep, n, perG int, seed int64) (configR
 			state[t.name] = "present"
 		case 'f':
 			state[t.name] = "failing"
+		case 'x':
+			state[t.name] = "unstartable"
 		default:
 			state[t.name] = "missing"
 		}
-		if state[t.name] != "missing" {
+		switch state[t.name] {
+		case "missing":
+		case "unstartable":
+			must(os.WriteFile(filepath.Join(bin, t.name), []byte(unstartable), 0o755))
+		default:
 			must(os.Symlink(standin, filepath.Join(bin, t.name)))
 		}
 		cfgParts = append(cfgParts, t.name+"="+state[t.name])
@@ -260,6 +266,42 @@ func runConfig(standin, work, cfg string, rep, n, perG int, seed int64) (configR
 			if len(runs) != 1 {
 				bad("failing-run-count", "%s failing, request %d: formatter ran %d times (want 1)", t.name, r.idx, len(runs))
 			}
+		case "unstartable":
+			// installed, but the operating system refuses to execute it. A tool probed by executing it
+			// looks absent (nothing is asserted on the error then); goimports is probed with `which`,
+			// which finds it: its run fails, which must be reported.
+			if t.name == "goimports" && r.err == nil {
+				bad("failing-no-error:cannot-start", "%s is installed but cannot be executed, request %d returned nil error", t.name, r.idx)
+			}
+			if !bytes.Equal(now, r.orig) {
+				bad("unstartable-file-touched", "%s cannot be executed, request %d: file was modified", t.name, r.idx)
+			}
+		}
+	}
+
+	// second phase, on the SAME cache: every tool that was present is damaged after its probe
+	// (replaced by a file the operating system refuses to execute); one more request per tool must
+	// report the failing run and leave the file alone.
+	for i, t := range tools {
+		if state[t.name] != "present" || requested[t.name] == 0 {
+			continue
+		}
+		must(os.Remove(filepath.Join(bin, t.name)))
+		must(os.WriteFile(filepath.Join(bin, t.name), []byte(unstartable), 0o755))
+		file := filepath.Join(dir, fmt.Sprintf("late-%d%s", i, t.ext))
+		orig := []byte("// late request\ncontent\n")
+		must(os.WriteFile(file, orig, 0o644))
+		err := fm.FormatFile(t.format, file)
+		now, rerr := os.ReadFile(file)
+		must(rerr)
+		res.Requests++
+		if err == nil {
+			bad("failing-no-error:damaged-after-probe", "%s was present when probed and cannot be executed any more: the request returned nil error", t.name)
+		} else {
+			res.Errors++
+		}
+		if !bytes.Equal(now, orig) {
+			bad("unstartable-file-touched", "%s damaged after its probe: file was modified", t.name)
 		}
 	}
 
@@ -295,6 +337,10 @@ func runConfig(standin, work, cfg string, rep, n, perG int, seed int64) (configR
 	res.CompletionOrder = sb.String()
 	return res, vs
 }
+
+// unstartable is the content of a tool that is installed (found in PATH, executable bit set)
+// but cannot be started: its interpreter does not exist.
+const unstartable = "#!/nonexistent/verif-interpreter\n"
 
 func must(err error) {
 	if err != nil {
